@@ -334,13 +334,39 @@ func c12IllegalChar(c *Ctx) {
 			target = r
 		}
 	}
+	// the error may be raised in a helper of Next's own to which Next hands over in tail position
+	// (`return l.operator(c)`): the paths are then those of Next up to the call followed by those of
+	// the helper from its entry
+	var handover ssa.CallInstruction
+	errFn := nx
+	if target == nil {
+		for _, r := range returnsOf(nx) {
+			ex, ok := effectiveResults(r)[0].(*ssa.Extract)
+			if !ok {
+				continue
+			}
+			hc, ok := ex.Tuple.(*ssa.Call)
+			if !ok {
+				continue
+			}
+			h := hc.Call.StaticCallee()
+			if h == nil || !p.InLang(h) || h == nx || len(h.Blocks) == 0 || !isPrivateTo(p, h, nx) {
+				continue
+			}
+			for _, hr := range returnsOf(h) {
+				if strings.Contains(p.Render(effectiveResults(hr)[1]), "unexpected character") {
+					target, handover, errFn = hr, hc, h
+				}
+			}
+		}
+	}
 	if start == nil || target == nil {
 		c.undecided("R6", "illegal-character-return", p.Pos(nx.Pos()), "the tokenStart store or the `unexpected character` return was not found in Next")
 		return
 	}
 	// the reported offset is pos - 1
 	pos := ""
-	for _, call := range callsIn(nx) {
+	for _, call := range callsIn(errFn) {
 		if staticCalleeIs(call, "(*lang.Lexer).error") && call.Block() == target.Block() {
 			pos = p.RenderShort(call.Common().Args[1])
 		}
@@ -375,42 +401,58 @@ func c12IllegalChar(c *Ctx) {
 		}
 		return n
 	}
-	counts := map[int]int{}
 	paths := 0
 	overflow := false
-	onPath := map[*ssa.BasicBlock]bool{}
-	var dfs func(b *ssa.BasicBlock, n int)
-	dfs = func(b *ssa.BasicBlock, n int) {
-		if overflow {
-			return
-		}
-		if onPath[b] {
-			overflow = true // a cycle: not expected in Next
-			return
-		}
-		var after, before ssa.Instruction
-		if b == start.Block() {
-			after = start
-		}
-		if b == target.Block() {
-			before = target
-		}
-		n += advancesIn(b, after, before)
-		if b == target.Block() {
-			counts[n]++
-			paths++
-			if paths > 20000 {
-				overflow = true
+	// enumerate: number of cursor steps on each path from (from, after) to (to, before)
+	enumerate := func(from *ssa.BasicBlock, after ssa.Instruction, to *ssa.BasicBlock, before ssa.Instruction) map[int]int {
+		out := map[int]int{}
+		onPath := map[*ssa.BasicBlock]bool{}
+		var dfs func(b *ssa.BasicBlock, n int)
+		dfs = func(b *ssa.BasicBlock, n int) {
+			if overflow {
+				return
 			}
-			return
+			if onPath[b] {
+				overflow = true // a cycle: not expected in Next
+				return
+			}
+			var aft, bef ssa.Instruction
+			if b == from {
+				aft = after
+			}
+			if b == to {
+				bef = before
+			}
+			n += advancesIn(b, aft, bef)
+			if b == to {
+				out[n]++
+				paths++
+				if paths > 20000 {
+					overflow = true
+				}
+				return
+			}
+			onPath[b] = true
+			for _, s := range b.Succs {
+				dfs(s, n)
+			}
+			onPath[b] = false
 		}
-		onPath[b] = true
-		for _, s := range b.Succs {
-			dfs(s, n)
-		}
-		onPath[b] = false
+		dfs(from, 0)
+		return out
 	}
-	dfs(start.Block(), 0)
+	counts := map[int]int{}
+	if handover == nil {
+		counts = enumerate(start.Block(), start, target.Block(), target)
+	} else {
+		first := enumerate(start.Block(), start, handover.Block(), handover)
+		second := enumerate(errFn.Blocks[0], nil, target.Block(), target)
+		for a, na := range first {
+			for b, nb := range second {
+				counts[a+b] += na * nb
+			}
+		}
+	}
 	if overflow || paths == 0 {
 		c.undecided("R6", "illegal-character-position", p.InstrPos(target), "the paths from the token start to the `unexpected character` return could not be enumerated (cycle or too many paths)")
 		return
